@@ -1,0 +1,20 @@
+//go:build verif
+
+// Contracts for the gocv verifier (comment-only file; see /verif/DESIGN.md §4).
+package cache
+
+//@ import dns "github.com/miekg/dns"
+
+// DO bit of a query: an OPT record is present and has DO set.
+//@ spec func doBit(q *dns.Msg) bool = hasOpt(q) && optDo(edns0(q))
+
+// C04: the key is injective on (name, type, class, AD, CD, DO); two runs of
+// getMsgKey on arbitrary queries that yield the same non-empty key were given
+// the same question with the same DNSSEC flags.
+//@ func getMsgKey [C04]
+//@   requires q != nil
+//@   ensures (result == "") == (q.Response || q.Opcode != 0 || len(q.Question) != 1)
+//@   relational ensures result1 == result2 && result1 != "" ==> q1.Question[0].Name == q2.Question[0].Name
+//@   relational ensures result1 == result2 && result1 != "" ==> q1.Question[0].Qtype == q2.Question[0].Qtype
+//@   relational ensures result1 == result2 && result1 != "" ==> q1.Question[0].Qclass == q2.Question[0].Qclass
+//@   relational ensures result1 == result2 && result1 != "" ==> q1.AuthenticatedData == q2.AuthenticatedData && q1.CheckingDisabled == q2.CheckingDisabled && doBit(q1) == doBit(q2)
